@@ -219,3 +219,13 @@ def odd_shapes():
     for kn in ("p256", "ed25519", "x25519"):
         out.append((f"odd-{kn}-public", K.key(kn, private=False)))
     return out
+
+
+def special_rsa_keys():
+    """RSA private keys with modulus lengths that are not multiples of 8 / just around 2048 bits
+    (corpus/special_rsa.json, written once by tools/gen_special_keys.py): [(bits, RSAKey)]."""
+    import json
+    from pathlib import Path
+    from joserfc.jwk import RSAKey
+    data = json.loads((Path(__file__).resolve().parent.parent.parent / "corpus" / "special_rsa.json").read_text())
+    return [(int(b), RSAKey.import_key(dict(d))) for b, d in sorted(data.items(), key=lambda kv: int(kv[0]))]
